@@ -33,7 +33,7 @@ def ws_facts(sc):
 
 def _run(fields):
     return {"harness": "hws", "driver": "wsdrv", "fields": fields, "corpus": "ws",
-            "quick": {"n": 320, "shards": 16}, "thorough": {"n": 2500, "shards": 32, "timeout": 3000}}
+            "quick": {"n": 320, "shards": 16, "timeout": 400}, "thorough": {"n": 1500, "shards": 32, "timeout": 3000}}
 
 
 COMMON_ASSUME = [
@@ -60,7 +60,7 @@ PROPS = {
         "lean": ["NbioVerif.Properties.C12"], "drivers": ["wsdrv"], "harness": ["hws"],
         "facts": [ws_facts],
         "runs": [_run(["werr", "wire", "recv", "rerr", "back", "berr", "err"])],
-        "oracles": ["c12-"],
+        "oracles": ["c12-"],  # c12-roundtrip, c12-mask, c12-trunc
         "rule": "case = message program on two back-to-back conns (role, compression level, frame limit, message limit, segmentation style) or a "
                 "frame stream fed to Parse, or a maskXOR sweep; distinct by hash of (configuration class, per-op outcome classes); non-trivial iff "
                 "something was delivered, buffered or refused",
@@ -81,7 +81,9 @@ PROPS = {
         "oracles": ["c13-"],
         "rule": "same streams as C12; distinct by hash of (role, compression, limits, per-Parse outcome, RFC verdict); non-trivial iff a frame was "
                 "completed or refused",
-        "assumptions": COMMON_ASSUME + ["close replies of a failing endpoint may carry any failure code (1002/1003/1007-1011)"],
+        "assumptions": COMMON_ASSUME + ["close replies of a failing endpoint may carry any failure code (1002/1003/1007-1011)",
+                                        "utf8.Valid = the model's utf8Valid: swept over all 1- and 2-byte strings on every run (split over the shards), "
+                                        "sampled at 3 and 4 bytes around the encoding boundaries, and compared through every twin line"],
     },
     "C15": {
         "manifest": {
